@@ -266,11 +266,167 @@ def step_no_hook(sx, st):
     return sx.exec_terminator(st, fr, block['term'])
 
 
-def closure_loop(sx, st, fr, term, iter_val, clo, acc_init, mode):
-    """Iterator::for_each / try_for_each / fold with a closure, summarised like a loop:
-    havoc of the places the closure writes (+ the accumulator) and one symbolic call.
-    Returns [(state, result value)] for the code after the call."""
-    from .models import ok as mk_ok, err as mk_err
+# ---------------------------------------------------------------------------------------------------
+# closure-driven loops: Iterator::for_each / try_for_each / fold / try_fold / any / all / find / find_map
+
+def _try_split(v):
+    """(kind, payload): ('continue', output) or ('break', value the consumer returns)"""
+    from .types import OPTION, RESULT, CONTROL_FLOW
+    if v[0] != 'adt':
+        raise Unsupported('Try value %s' % T.show(v)[:60])
+    if v[1] == RESULT:
+        return ('continue', v[3][0]) if v[2] == 0 else ('break', v)
+    if v[1] == OPTION:
+        return ('continue', v[3][0]) if v[2] == 1 else ('break', v)
+    if v[1] == CONTROL_FLOW:
+        return ('continue', v[3][0]) if v[2] == 0 else ('break', v)
+    raise Unsupported('Try type %s' % v[1])
+
+
+def _try_output(dest_ty, v):
+    from .types import OPTION, RESULT, CONTROL_FLOW, adt_name
+    n = adt_name(dest_ty) if dest_ty else None
+    if n == RESULT:
+        return ('adt', RESULT, 0, (v,))
+    if n == OPTION:
+        return ('adt', OPTION, 1, (v,))
+    if n == CONTROL_FLOW:
+        return ('adt', CONTROL_FLOW, 0, (v,))
+    raise Unsupported('Try output type %s' % (dest_ty or {}).get('s'))
+
+
+class _Mode:
+    """What one consumer does with the closure's result.  on_result -> list of
+    ('back', state) | ('early', state, value); exit_value(state, acc) is the result on exhaustion."""
+
+    def __init__(self, sx, name, dest_ty, has_acc):
+        self.sx, self.name, self.dest_ty, self.has_acc = sx, name, dest_ty, has_acc
+
+    def closure_args(self, st, acc, e):
+        if self.name in ('fold', 'try_fold'):
+            return ('tuple', (acc, e))
+        if self.name == 'find':
+            cid = self.sx.new_heap(None, None)
+            st.cells[cid] = e
+            return ('tuple', (('ref', cid, ()),))
+        return ('tuple', (e,))
+
+    def on_result(self, st, val, e, set_acc):
+        sx, n = self.sx, self.name
+        from .models import some as mk_some
+        if n == 'for_each':
+            return [('back', st)]
+        if n == 'fold':
+            set_acc(st, val)
+            return [('back', st)]
+        if n in ('try_for_each', 'try_fold'):
+            out = []
+            for s2, v2 in sx.models.expand_enum(st, val):
+                kind, payload = _try_split(v2)
+                if kind == 'continue':
+                    if n == 'try_fold':
+                        set_acc(s2, payload)
+                    out.append(('back', s2))
+                else:
+                    out.append(('early', s2, payload))
+            return out
+        if n in ('any', 'all', 'find'):
+            out = []
+            for s2, b in sx.fork_bool(st, val):
+                if n == 'any':
+                    out.append(('early', s2, ('bool', True)) if b else ('back', s2))
+                elif n == 'all':
+                    out.append(('back', s2) if b else ('early', s2, ('bool', False)))
+                else:
+                    out.append(('early', s2, mk_some(e)) if b else ('back', s2))
+            return out
+        if n == 'find_map':
+            out = []
+            for s2, v2 in sx.models.expand_enum(st, val):
+                out.append(('early', s2, v2) if v2[2] == 1 else ('back', s2))
+            return out
+        raise Unsupported('consumer %s' % n)
+
+    def exit_value(self, st, acc):
+        from .models import NONE
+        n = self.name
+        if n == 'for_each':
+            return T.UNIT
+        if n == 'fold':
+            return acc
+        if n == 'try_for_each':
+            return _try_output(self.dest_ty, T.UNIT)
+        if n == 'try_fold':
+            return _try_output(self.dest_ty, acc)
+        if n == 'any':
+            return ('bool', False)
+        if n == 'all':
+            return ('bool', True)
+        if n in ('find', 'find_map'):
+            return NONE
+        raise Unsupported('consumer %s' % n)
+
+
+def _iter_value(sx, st, iter_val):
+    """the iterator value behind any chain of references (consumers take it by value or by &mut)"""
+    v = iter_val
+    n = 0
+    while v[0] == 'ref' and n < 8:
+        v = sx.read_cell(st, v[1], v[2])
+        n += 1
+    while v[0] == 'op' and v[1] == 'ref':
+        v = v[2][0]
+    return v
+
+
+def concrete_loop(sx, st, fr, term, it, clo, acc_init, md):
+    """A consumer over an iterator of known length (by-value array, possibly adapted): unrolled exactly,
+    one closure call per element; no loop record, nothing is havocked."""
+    from . import iters
+    dest = sx.resolve_place(st, fr, term['dest'])
+    target = term['target']
+    acc_cell = sx.new_heap(None, None)
+    st.cells[acc_cell] = acc_init if acc_init is not None else T.UNIT
+
+    def set_acc(s, v):
+        s.cells[acc_cell] = v
+
+    def finish(s, v):
+        return sx.continue_with(s, v, dest, target)
+
+    def run(s, cur):
+        def k(s2, e, nit):
+            if e is None:
+                return finish(s2, md.exit_value(s2, s2.cells[acc_cell]))
+            tmp = sx.new_heap(None, None)
+
+            def then(sx_, s3, val):
+                out = []
+                for r in md.on_result(s3, val, e, set_acc):
+                    if r[0] == 'back':
+                        out.extend(run(r[1], nit))
+                    else:
+                        out.extend(finish(r[1], r[2]))
+                return out
+            r = sx.call_closure_value(s2, s2.frames[-1], clo, md.closure_args(s2, s2.cells[acc_cell], e), (tmp, ()), ('then', then))
+            if r is None:
+                raise Unsupported('closure-driven loop: callable is not a local closure')
+            return r
+        return iters.step(sx, s, cur, k)
+    states = run(st, it)
+    return [(s, None) for s in states]
+
+
+def closure_loop(sx, st, fr, term, iter_val, clo, acc_init, mode, dest_ty=None):
+    """An iterator consumer with a closure, summarised like a loop: havoc of the places the closure
+    writes (+ the accumulator) and one symbolic iteration whose element comes from one `next()` of the
+    (possibly adapted) iterator.  Returns [(state, result value)] for the code after the call
+    (value None: the state already continues by itself)."""
+    from . import iters
+    md = _Mode(sx, mode, dest_ty, acc_init is not None)
+    itv = _iter_value(sx, st, iter_val)
+    if iters.is_concrete(itv):
+        return concrete_loop(sx, st, fr, term, itv, clo, acc_init, md)
     for k, r in st.active_loops.items():
         if not r.get('suspended'):
             raise Unsupported('nested loop (closure-driven) at %s' % sx.where(fr, term))
@@ -282,18 +438,22 @@ def closure_loop(sx, st, fr, term, iter_val, clo, acc_init, mode):
     acc_cell = sx.new_heap(None, None)
     st.cells[acc_cell] = acc_init if acc_init is not None else T.UNIT
     pre_cells.add(acc_cell)
-    it_sym = sx.resolve_deep(st, iter_val)
-    # element type from the closure's parameter
-    cv = clo
-    while cv[0] == 'ref':
-        cv = sx.read_cell(st, cv[1], cv[2])
-    while cv[0] == 'op' and cv[1] == 'ref':
-        cv = cv[2][0]
-    if cv[0] != 'closure' or cv[2] is None:
+    it_sym = sx.resolve_deep(st, itv)
+    elem_ty = iters.closure_param_ty(sx, clo, st) if mode not in ('fold', 'try_fold') else None
+    if mode in ('fold', 'try_fold'):
+        cv = _iter_value(sx, st, clo)
+        if cv[0] == 'closure' and cv[2] is not None:
+            insts = sx._insts_by_id[cv[2][0]]
+            cbody = sx.facts.bodies[insts[cv[2][1]]['def']]
+            elem_ty = cbody['locals'][3]['ty'] if cbody['arg_count'] >= 3 else None
+    if mode == 'find' and elem_ty is not None and elem_ty.get('k') == 'ref':
+        elem_ty = elem_ty.get('inner')
+    cv0 = _iter_value(sx, st, clo)
+    if cv0[0] not in ('closure', 'fn') or (cv0[0] == 'closure' and cv0[2] is None):
         raise Unsupported('closure-driven loop with an opaque callable')
-    insts = sx._insts_by_id[cv[2][0]]
-    cbody = sx.facts.bodies[insts[cv[2][1]]['def']]
-    elem_ty = cbody['locals'][cbody['arg_count']]['ty'] if cbody['arg_count'] >= 2 else None
+
+    def set_acc(s, v):
+        sx.write_cell(s, acc_cell, (), v)
 
     def preexisting(cell):
         return cell in pre_cells or (cell[0] in live_fids)
@@ -324,29 +484,52 @@ def closure_loop(sx, st, fr, term, iter_val, clo, acc_init, mode):
                 cell_havoc[c] = sx.resolve_deep(s0, sx.read_cell(s0, c, ()))
             except (Infeasible, Unsupported):
                 pass
-        s_exit = s0.copy()
+        it_h = iters.havoc(sx, rec, itv)
         s0.active_loops = dict(s0.active_loops)
         s0.active_loops[rec['key']] = rec
         s0.writes = []
         g0, e0 = len(s0.guard), len(s0.events)
-        # one call of the closure on a fresh element
-        e = sx.fresh('elem', elem_ty)
-        if elem_ty is not None and elem_ty.get('k') == 'ref':
-            cid = sx.new_heap(None, elem_ty.get('inner'))
-            inner = sx.named(e[1] + '*', elem_ty.get('inner'))
-            s0.cells[cid] = inner
-            ev, shown = ('ref', cid, ()), inner
-        else:
-            ev, shown = e, e
-        s0.events.append(('next', it_sym, shown))
-        args = ('tuple', ((sx.read_cell(s0, acc_cell, ()), ev) if mode == 'fold' else (ev,)))
-        tmp = sx.new_heap(None, None)
-        r = sx.call_closure_value(s0, s0.frames[-1], clo, args, (tmp, ()), ('stop', rec['key']))
-        if r is None:
-            raise Unsupported('closure-driven loop: callable is not a local closure')
-        backs, earlies, terms = [], [], []
-        work = [s0]
+        backs, earlies, terms, exits = [], [], [], []
+
+        # one `next()` of the iterator, then one call of the closure on the element
+        def k(s, e, nit):
+            if e is None:
+                s.done = ('closure_exit', rec['key'])
+                return [s]
+            tmp = sx.new_heap(None, None)
+
+            def then(sx_, s2, val, e=e):
+                s2.done = ('closure_ret', val, rec['key'], e)
+                return [s2]
+            r = sx.call_closure_value(s, s.frames[-1], clo, md.closure_args(s, sx.read_cell(s, acc_cell, ()), e), (tmp, ()), ('then', then))
+            if r is None:
+                raise Unsupported('closure-driven loop: callable is not a local closure')
+            return r
+        work = list(iters.step(sx, s0, it_h, k, elem_ty))
         steps = 0
+
+        def classify(n_):
+            """a finished state of the template: back edge, early exit, exhaustion or termination"""
+            if n_.done[0] == 'closure_ret' and n_.done[2] == rec['key']:
+                val, e = n_.done[1], n_.done[3]
+                n_.done = None
+                for r in md.on_result(n_, val, e, set_acc):
+                    if r[0] == 'back':
+                        backs.append(r[1])
+                    else:
+                        earlies.append((r[1], r[2]))
+            elif n_.done[0] == 'closure_exit' and n_.done[1] == rec['key']:
+                n_.done = None
+                exits.append(n_)
+            else:
+                terms.append(n_)
+        pending = []
+        for w in work:
+            if w.done is not None:
+                classify(w)
+            else:
+                pending.append(w)
+        work = pending
         while work:
             cur = work.pop()
             while True:
@@ -360,22 +543,7 @@ def closure_loop(sx, st, fr, term, iter_val, clo, acc_init, mode):
                 cont = []
                 for n_ in nxt:
                     if n_.done is not None:
-                        if n_.done[0] == 'closure_ret' and n_.done[2] == rec['key']:
-                            val = n_.done[1]
-                            n_.done = None
-                            if mode == 'fold':
-                                sx.write_cell(n_, acc_cell, (), val)
-                                backs.append(n_)
-                            elif mode == 'try_for_each':
-                                for s2, v2 in sx.models.expand_enum(n_, val):
-                                    if v2[2] == 0:
-                                        backs.append(s2)
-                                    else:
-                                        earlies.append((s2, v2))
-                            else:
-                                backs.append(n_)
-                        else:
-                            terms.append(n_)
+                        classify(n_)
                     else:
                         cont.append(n_)
                 if len(cont) == 1:
@@ -384,7 +552,7 @@ def closure_loop(sx, st, fr, term, iter_val, clo, acc_init, mode):
                 work.extend(cont)
                 break
         Wn = set()
-        for s in backs + [x for x, _ in earlies] + terms:
+        for s in backs + [x for x, _ in earlies] + terms + exits:
             for (cell, path) in s.writes or []:
                 if preexisting(cell):
                     Wn.add((cell, path))
@@ -395,6 +563,7 @@ def closure_loop(sx, st, fr, term, iter_val, clo, acc_init, mode):
     else:
         raise Unsupported('closure loop write set did not stabilise at %s' % rec['where'])
     rec['init'], rec['havoc'] = init, havoc
+    rec['iter'] = it_sym
     cells_w = sorted(set(c for c, _ in havoc), key=repr)
     rec['cell_labels'] = {c: ('acc' if c == acc_cell else loc_label(sx, fr, c, (), 0)) for c in cells_w}
     rec['cell_init'] = {}
@@ -420,24 +589,22 @@ def closure_loop(sx, st, fr, term, iter_val, clo, acc_init, mode):
                 cell_post[c] = ('unknown', 'unreadable')
         steps_out.append({'guard': s.guard[g0:], 'events': s.events[e0:], 'post': post, 'cell_post': cell_post, 'unknowns': list(s.unknowns)})
     rec['steps'] = steps_out
-    rec['n_exits'] = 1 + len(earlies)
+    rec['n_exits'] = len(exits) + len(earlies)
     rec['n_terms'] = len(terms)
     # normal exit: the iterator is exhausted, state = havocked state
-    s_exit.events.append(('next', it_sym, None))
-    rec['exit_guards'] = [[]] + [s.guard[g0:] for s, _ in earlies]
-    rec['exit_events'] = [[('next', it_sym, None)]] + [s.events[e0:] for s, _ in earlies]
+    rec['exit_guards'] = [s.guard[g0:] for s in exits] + [s.guard[g0:] for s, _ in earlies]
+    rec['exit_events'] = [s.events[e0:] for s in exits] + [s.events[e0:] for s, _ in earlies]
     out = []
-    s_exit.loops = s_exit.loops + [rec['id']]
-    if mode == 'fold':
-        out.append((s_exit, sx.read_cell(s_exit, acc_cell, ())))
-    elif mode == 'try_for_each':
-        out.append((s_exit, mk_ok(T.UNIT)))
-    else:
-        out.append((s_exit, T.UNIT))
-    for s, v in earlies:
+
+    def leave(s):
         s.active_loops = {k: x for k, x in s.active_loops.items() if k != rec['key']}
         s.loops = s.loops + [rec['id']]
         s.writes = (outer_writes + (s.writes or [])) if outer_writes is not None else None
+    for s in exits:
+        leave(s)
+        out.append((s, md.exit_value(s, sx.read_cell(s, acc_cell, ()))))
+    for s, v in earlies:
+        leave(s)
         out.append((s, v))
     for s in terms:
         s.active_loops = {k: x for k, x in s.active_loops.items() if k != rec['key']}
